@@ -544,7 +544,7 @@ impl IoLoop {
         }
 
         let mut events = Events::with_capacity(128);
-        let mut listening_to_channels = true;
+        let mut listening_to_channels = self.inner.channels_are_registered;
         loop {
             let start_poll = Instant::now();
             self.poll
